@@ -165,6 +165,44 @@ func propC20(c *Ctx, r *Report) {
 			bad = bad[:4]
 		}
 		r.check(len(bad) == 0, "C20/ticker-table", "fat2.validPTickerStrings vs PTicker constants", "-", fmt.Sprintf("%d tickers", len(strs)), strings.Join(bad, "; "))
+		// the lookup table the decoder reads holds exactly those spellings: every key put into it is an element of
+		// validPTickerStrings itself (not a transformed copy), the value its position + 1
+		nput := 0
+		var badKeys []string
+		for _, f := range c.Funcs {
+			if f.Pkg == nil || f.Pkg.Pkg.Name() != "fat2" {
+				continue
+			}
+			allInstrs(f, func(ins ssa.Instruction) {
+				mu, ok := ins.(*ssa.MapUpdate)
+				if !ok {
+					return
+				}
+				mt, ok := mu.Map.Type().Underlying().(*types.Map)
+				if !ok || shortType(mt.Elem()) != "fat2.PTicker" || shortType(mt.Key()) != "string" {
+					return
+				}
+				nput++
+				k := mu.Key
+				direct := false
+				switch x := k.(type) {
+				case *ssa.Extract: // range value over validPTickerStrings
+					if nx, ok := x.Tuple.(*ssa.Next); ok && x.Index == 2 {
+						if rg, ok := nx.Iter.(*ssa.Range); ok && valuePath(rg.X) == "fat2.validPTickerStrings" {
+							direct = true
+						}
+					}
+				case *ssa.UnOp:
+					if ia, ok := x.X.(*ssa.IndexAddr); ok && sliceHas(ia.X, func(v ssa.Value) bool { return valuePath(v) == "fat2.validPTickerStrings" }) {
+						direct = true
+					}
+				}
+				if !direct {
+					badKeys = append(badKeys, fmt.Sprintf("%s puts a key that is not an element of validPTickerStrings (%s) at %s", fname(f), stablePath(k, 0), c.ipos(mu)))
+				}
+			})
+		}
+		r.check(len(badKeys) == 0 && nput >= 1, "C20/ticker-table", "the ticker lookup table holds the canonical spellings only", "-", fmt.Sprintf("%d insertions", nput), strings.Join(badKeys, "; ")+": PTicker.UnmarshalJSON reads this table, so another spelling of a ticker is accepted in a signed batch")
 		// StringToTicker looks the name up in the map built from that table as index+1
 		vt := c.pkg("fat2").Func("init")
 		_ = vt
